@@ -212,6 +212,10 @@ impl SrtlaRegistrationManager {
 
     fn handle_reg3(&mut self, _conn_idx: usize) {
         self.has_connected = true;
+        // This uplink is registered from now on. `active_connections` is only
+        // recounted by housekeeping, so without this a REG_NGP arriving before
+        // the next tick would still see 0 and answer with a group-creating REG1.
+        self.active_connections = self.active_connections.max(1);
     }
 
     fn handle_reg_err(&mut self, conn_idx: usize, now_ms: u64) {
